@@ -104,6 +104,17 @@ CLAIMED = {
             "struct_names. Behavioural invariance under renaming is not decided.",
             "Trusted: rustc nightly MIR and rustc_span keyword table; edition 2021 for generated projects.",
             "DESIGN.md §4 C13"),
+    "C18": ("typestate / dataflow over the async handlers' coroutine MIR: write-guard provenance of every mutation of "
+            "the shared map, control dependence of the store on a version comparison, provenance of the published "
+            "version",
+            "Decides a necessary condition of convergence: every insertion into `documents` through a write guard is "
+            "dominated by a comparison with the version already stored (violated today: unconditional insert, listed); "
+            "each publish_diagnostics of the analysis carries the analysed version; did_open/did_change pass "
+            "uri/text/version of one notification; did_close removes under the write guard. Guards live across await "
+            "points are reported as information. All interleavings of handlers are not explored.",
+            "Trusted: rustc nightly coroutine MIR (pre-transform); tower-lsp's concurrency (4 handlers). The rule is "
+            "necessary, not sufficient, for the property.",
+            "DESIGN.md §4 C18"),
 }
 
 NOT_APPLICABLE = {
